@@ -668,26 +668,35 @@ def nwayFactors : List (Option (Mat α)) → List (Mat α) → Except Err (List 
   | none :: Bs, X :: Xs => do let r ← nwayFactors Bs Xs; pure (X :: r)
   | some B :: Bs, X :: Xs => do let Y ← dotChecked B X; let r ← nwayFactors Bs Xs; pure (Y :: r)
 
+/-- `_modek_tensordot_sparse` (48-64) reshapes to `(nk, -1)`, which numpy refuses when `nk = 0` -/
+def sparseReshapeFails : List (Option (Mat α)) → List Nat → Bool
+  | some _ :: Bs, n :: s => n = 0 || sparseReshapeFails Bs s
+  | none :: Bs, _ :: s => sparseReshapeFails Bs s
+  | _, _ => false
+
 mutual
-/-- `apply_tprod(ops, T)` (97-128 and the `nway_prod` methods) -/
-def Ten.nway : Ten α → List (Option (Mat α)) → Except Err (Ten α)
-  | .full A, ops => do let R ← A.nway ops; pure (.full R)
+/-- `apply_tprod(ops, T)` (97-128 and the `nway_prod` methods).  `sparse` says that the
+operators are scipy sparse matrices (only the ndarray branch distinguishes the two). -/
+def Ten.nway (sparse : Bool) : Ten α → List (Option (Mat α)) → Except Err (Ten α)
+  | .full A, ops =>
+      if sparse && sparseReshapeFails ops A.shape then .error .value
+      else do let R ← A.nway ops; pure (.full R)
   | .can Xs, ops =>
       if ops.length > Xs.length then .error .value
       else do let Ys ← nwayFactors ops Xs; mkCan Ys
   | .tucker Us X, ops =>
       if ops.length > Us.length then .error .value
       else do let Vs ← nwayFactors ops Us; mkTucker Vs X
-  | .sum _ Xs, ops => do let Ys ← nwayList Xs ops; mkSum Ys          -- 1072-1078
-  | .prod _ Xs, ops => do let Ys ← nwayProd Xs ops; pure (mkProd Ys)  -- 1123-1130
-def nwayList : List (Ten α) → List (Option (Mat α)) → Except Err (List (Ten α))
+  | .sum _ Xs, ops => do let Ys ← nwayList sparse Xs ops; mkSum Ys          -- 1072-1078
+  | .prod _ Xs, ops => do let Ys ← nwayProd sparse Xs ops; pure (mkProd Ys)  -- 1123-1130
+def nwayList (sparse : Bool) : List (Ten α) → List (Option (Mat α)) → Except Err (List (Ten α))
   | [], _ => .ok []
-  | X :: Xs, ops => do let Y ← X.nway ops; let Ys ← nwayList Xs ops; pure (Y :: Ys)
-def nwayProd : List (Ten α) → List (Option (Mat α)) → Except Err (List (Ten α))
+  | X :: Xs, ops => do let Y ← X.nway sparse ops; let Ys ← nwayList sparse Xs ops; pure (Y :: Ys)
+def nwayProd (sparse : Bool) : List (Ten α) → List (Option (Mat α)) → Except Err (List (Ten α))
   | [], _ => .ok []
   | X :: Xs, ops => do
-      let Y ← X.nway (ops.take X.ndim)
-      let Ys ← nwayProd Xs (ops.drop X.ndim)
+      let Y ← X.nway sparse (ops.take X.ndim)
+      let Ys ← nwayProd sparse Xs (ops.drop X.ndim)
       pure (Y :: Ys)
 end
 
@@ -697,7 +706,7 @@ def padMat (n b a : Nat) : Mat α := ⟨b + n + a, n, fun i j => if i = b + j th
 /-- `pad(X, pad_width)` (237-258) -/
 def Ten.pad (T : Ten α) (pw : List (Option (Nat × Nat))) : Except Err (Ten α) :=
   if pw.length ≠ T.ndim then .error .assertion
-  else T.nway ((pw.zip T.shape).map (fun p => p.1.map (fun ba => padMat p.2 ba.1 ba.2)))
+  else T.nway true ((pw.zip T.shape).map (fun p => p.1.map (fun ba => padMat p.2 ba.1 ba.2)))
 
 /-- `TuckerTensor.truncate(k)` (929-937), `k` a tuple of non-negative ranks -/
 def Ten.truncate : Ten α → List Nat → Except Err (Ten α)
@@ -758,8 +767,8 @@ def COp.apply (A : COp α) (X : Ten α) : Except Err (Ten α) :=
   match A.terms with
   | [] => .error .type
   | t :: ts => do
-      let Y0 ← X.nway (t.map some)
-      ts.foldlM (fun Y t' => do let Z ← X.nway (t'.map some); Y.add Z) Y0
+      let Y0 ← X.nway true (t.map some)
+      ts.foldlM (fun Y t' => do let Z ← X.nway true (t'.map some); Y.add Z) Y0
 
 /-- `A[l0:l1, l0:l1]` -/
 def Mat.sliceSq (A : Mat α) (l0 l1 : Int) : Except Err (Mat α) := do
